@@ -309,12 +309,51 @@ func (e *Engine) checkProperty(prop string, o runOpts) int {
 			lines = append(lines, fmt.Sprintf("  obligation %s [%s] %s: %s", g.Name, g.Status, g.Pos, g.Text))
 		}
 	}
+	var bounded map[string]any
+	if prop == "C12" {
+		// alias-blindness lint: a clause claimed for C12 may speak about an element only through isStackLike/stackOf/isCondLike/condOf
+		for k, c := range todo {
+			if strings.HasSuffix(k, "@safe") {
+				continue
+			}
+			for _, cl := range c.Ensures {
+				if !hasTag(cl.Tags, "C12") {
+					continue
+				}
+				for _, bad := range []string{"is_v_Stack", "is_v_Cond", "stack_of(", "cond_of(", "aliasStack", "aliasCond", "is_v_pStack", "is_v_pCond", "is_v_other"} {
+					if strings.Contains(cl.Expr, bad) {
+						fmt.Printf("gvc: broken: clause %s of %s is tagged C12 but distinguishes native from alias values (%s)\n", cl.Label, k, bad)
+						brokenGoals++
+					}
+				}
+			}
+		}
+		au := e.auditConverters()
+		bounded = map[string]any{"label": "bounded", "what": au.summary(), "checks": au.Cases, "values": au.Values, "failures": au.Failures}
+		fmt.Println("gvc: " + au.summary() + " (bounded stand-in, not counted as proved)")
+		if len(au.Failures) > 0 {
+			violations++
+			outDir := e.VerifDir
+			if d := os.Getenv("GVC_OUT"); d != "" {
+				outDir = d
+			}
+			dir := filepath.Join(outDir, "replays", prop)
+			os.MkdirAll(dir, 0o755)
+			path := filepath.Join(dir, "converter_audit.json")
+			data, _ := json.MarshalIndent(map[string]any{"property": prop, "obligation": "bounded-audit#converters", "failures": au.Failures, "output": truncate(au.Output, 6000), "go_test": auditTest}, "", " ")
+			os.WriteFile(path, data, 0o644)
+			lines = append(lines, fmt.Sprintf("VIOLATION property=%s replay=%s", prop, path))
+			for _, f := range au.Failures {
+				lines = append(lines, "  bounded audit: "+f)
+			}
+		}
+	}
 	for _, l := range lines {
 		fmt.Println(l)
 	}
 	wall := time.Since(start).Seconds()
 	if brokenGoals == 0 {
-		e.writeEvidence(prop, o, seed, sum, known, violations, wall)
+		e.writeEvidence(prop, o, seed, sum, known, violations, wall, bounded)
 	}
 	fmt.Printf("gvc: property %s: %d functions under contract, %d obligations, %d discharged (%d by known finding), %d violations, %.1fs\n",
 		prop, len(sum.Functions), sum.Obligations, sum.Discharged, known, violations, wall)
@@ -344,7 +383,16 @@ func matchKnown(kfs []knownFinding, prop, goal string) *knownFinding {
 	return nil
 }
 
-func (e *Engine) writeEvidence(prop string, o runOpts, seed int, sum checkSummary, known, violations int, wall float64) {
+func hasTag(tags []string, t string) bool {
+	for _, x := range tags {
+		if x == t {
+			return true
+		}
+	}
+	return false
+}
+
+func (e *Engine) writeEvidence(prop string, o runOpts, seed int, sum checkSummary, known, violations int, wall float64, bounded map[string]any) {
 	trusted := []string{
 		"go/types + go/ssa (x/tools v0.29.0) represent the package the Go compiler builds; gvc's SSA instruction semantics (DESIGN 2.2)",
 		"solver soundness: z3 4.8.12, z3 5.1.0, cvc5 1.0.3 (raced; thorough tier runs all and fails on disagreement)",
@@ -377,6 +425,9 @@ func (e *Engine) writeEvidence(prop string, o runOpts, seed int, sum checkSummar
 		"assumed_contracts":      sum.Assumed,
 		"samples":                sum.Samples,
 		"per_query_timeout_s":    o.Timeout.Seconds(),
+	}
+	if bounded != nil {
+		cov["bounded_standins"] = []any{bounded}
 	}
 	if len(sum.Samples) == 0 {
 		cov["samples"] = []map[string]string{{"note": "no non-trivial obligation discharged"}}
